@@ -3,6 +3,7 @@ package props
 import (
 	"fmt"
 	"math/big"
+	"sort"
 	"strings"
 
 	"sifverif/chain"
@@ -13,6 +14,32 @@ import (
 // MonPeg — C07: exact debits on lock / burn, fee routing, supply, guards, one event with the message values.
 func MonPeg(rep *report.Report, h BHistory) {
 	for _, s := range h.Steps {
+		if s.Kind == 7 {
+			// the blacklist is what the administrator's last accepted message says — as a set of Ethereum accounts
+			set := func(l []int64) string {
+				m := map[int64]bool{}
+				for _, x := range l {
+					m[x] = true
+				}
+				var o []int64
+				for x := range m {
+					o = append(o, x)
+				}
+				sort.Slice(o, func(i, j int) bool { return o[i] < o[j] })
+				return fmt.Sprint(o)
+			}
+			want := set(s.Pre.Blacklist)
+			if s.OK {
+				want = set(s.A[1:])
+			}
+			if got := set(s.Post.Blacklist); got != want {
+				rep.Violate("C07/blacklist-not-as-set", fmt.Sprintf("blacklisted accounts after the message: %s, expected %s (accepted=%v)", got, want, s.OK), h.replay(s.StepNo))
+			}
+			if s.OK != s.Add {
+				rep.Violate("C07/blacklist-update-authorisation", fmt.Sprintf("SetBlacklist accepted=%v for a signer with role=%v", s.OK, s.Add), h.replay(s.StepNo))
+			}
+			continue
+		}
 		if s.Kind != 2 {
 			continue
 		}
